@@ -96,6 +96,18 @@ pub struct LspServer {
 
 impl LspServer {
     pub fn start() -> Option<LspServer> {
+        Self::start_with(0)
+    }
+    /// the client's side of the handshake varies (what it offers is only an offer: the server's answer did not announce a
+    /// position encoding, so UTF-16 is in force whatever the client listed)
+    pub fn start_with(variant: usize) -> Option<LspServer> {
+        let params = match variant % 5 {
+            0 => r#"{"capabilities":{}}"#,
+            1 => r#"{"capabilities":{"general":{"positionEncodings":["utf-8"]}}}"#,
+            2 => r#"{"capabilities":{"general":{"positionEncodings":["utf-8","utf-16"]}}}"#,
+            3 => r#"{"capabilities":{"general":{"positionEncodings":["utf-16","utf-8"]}}}"#,
+            _ => r#"{"processId":1,"clientInfo":{"name":"probe","version":"1"},"rootUri":null,"capabilities":{"textDocument":{"semanticTokens":{"requests":{"full":true},"tokenTypes":["variable"],"tokenModifiers":[],"formats":["relative"],"multilineTokenSupport":true,"overlappingTokenSupport":true},"publishDiagnostics":{"relatedInformation":true}},"general":{"positionEncodings":["utf-32","utf-8","utf-16"]}},"trace":"verbose","workspaceFolders":null}"#,
+        };
         let bin = std::env::var("VERIF_LSP_BIN").unwrap_or_else(|_| "/verif/.cache/target-repo/debug/abasic-lsp".to_string());
         let mut child = std::process::Command::new(bin)
             .stdin(std::process::Stdio::piped())
@@ -107,9 +119,14 @@ impl LspServer {
         let stdin = child.stdin.take()?;
         let stdout = std::io::BufReader::new(child.stdout.take()?);
         let mut s = LspServer { child, stdin, stdout, opened_uris: vec![], next_id: 1 };
-        s.send(r#"{"jsonrpc":"2.0","id":0,"method":"initialize","params":{"capabilities":{}}}"#);
-        // the initialize response
-        s.read_message()?;
+        s.send(&format!(r#"{{"jsonrpc":"2.0","id":0,"method":"initialize","params":{}}}"#, params));
+        // the initialize response; a server that announces another position encoding than UTF-16 is not what this harness measures
+        let hello = s.read_message()?;
+        if let Some(enc) = hello["result"]["capabilities"]["positionEncoding"].as_str() {
+            if enc != "utf-16" {
+                return None;
+            }
+        }
         s.send(r#"{"jsonrpc":"2.0","method":"initialized","params":{}}"#);
         Some(s)
     }
@@ -528,6 +545,10 @@ impl Session {
                         format!("S {}", ts.join(" "))
                     }
                 }
+            }
+            ["lsphello", k] => {
+                self.lsp = LspServer::start_with(k.parse().unwrap_or(0));
+                if self.lsp.is_some() { "ok".to_string() } else { "NO-SERVER".to_string() }
             }
             ["lsp", rest @ ..] | ["lspu", _, rest @ ..] | ["lspo", _, rest @ ..] => {
                 let k: usize = if parts[0] != "lsp" { parts[1].parse().unwrap_or(0) } else { 0 };
